@@ -215,6 +215,10 @@ class ClsSource(_ClsBase):
         self.closes += 1
         if self.state not in ("exhausted",):
             self.state = "closed"
+        # closing is asynchronous: it may suspend (after the fact, so that a cancellation landing
+        # here leaves the source closed) -- a close that is only triggered by garbage collection
+        # cannot complete then
+        await suspend(self.rec.acct, ("aclose", self.idx), self.rec.susp)
 
     @property
     def released(self):
@@ -364,7 +368,7 @@ ASYNC_ITER_FLAVOURS = ("cls", "agen")  # flavours that own something to release
 
 # --------------------------------------------------------------------------- callables
 
-FLAVOURS_CALL = ("asyncdef", "def", "partial", "obj", "aw")
+FLAVOURS_CALL = ("asyncdef", "def", "partial", "obj", "aw", "cls")
 
 
 def _semantics(rec, name):
@@ -421,6 +425,15 @@ def make_callable(flavour, rec: Recorder, name, sem=None):
             return Awaitable_(af(*a))
 
         return faw
+    if flavour == "cls":
+        class AwaitableCall:   # calling the class makes an awaitable instance
+            def __init__(self, *a):
+                self.a = a
+
+            def __await__(self):
+                return af(*self.a).__await__()
+
+        return AwaitableCall
     if flavour == "obj":
         class CallObj:
             def __call__(self, *a):
